@@ -13,7 +13,7 @@ META = {
             'derivation step / grammar line, add an epsilon edge, answer of a neighbouring phase, the unchanged input) and ill-formed '
             'text; for every answer the printed verdict is compared with the exercise criterion evaluated by independent oracles on the '
             'submitted text (OK must imply the criterion) and with the Lean model of the checker on the parsed objects; non-trivial = '
-            'answer that differs from the key; distinct by (exercise, instance, answer); also the from-file checkers (called twice on the same file with different bounds), the cfg word-list checker (bottom-up unit chains), the accept / reject checkers, random-order genuine derivations, XYX sentential forms, epsilon edges in either spelling; the verdict is OK when ANY output line is OK; the whole text pipeline is compared with Gamba.Model.CheckText',
+            'answer that differs from the key; distinct by (exercise, instance, answer); also the from-file checkers (called twice on the same file with different bounds), the cfg word-list checker (bottom-up unit chains), the accept / reject checkers, random-order genuine derivations, XYX sentential forms, epsilon edges in either spelling; the verdict is OK when ANY output line is OK; the whole text pipeline is compared with Gamba.Model.CheckText; every reported counterexample word is judged (genuine, polarity, minimal length) against independent oracles and the model Gamba.Model.CheckCex; compare_languages directly on small word sets; language-from-words / from-file checkers for ALL six kinds incl. mixed kinds (Gamba.Model.CheckAll), check_number_of_nfa_states, check_cfg_accepts / _rejects',
     'assumptions': ['answers are parsed by the library parsers (C16/C17); criteria are those of DESIGN.md section 6 C12'],
     'trusted_base': ['Spec: Gamba/Spec/Check.lean (criteria)'],
 }
@@ -176,10 +176,10 @@ def judge(ctx, c, answers):
             if model_ok != (verdict == 'OK'):
                 ctx.violation('correspondence:' + ex.name, {'case': c_min(c), 'answer': a, 'impl': verdict, 'model': la},
                               no_input=not (verdict == 'OK' and not crit))
-        if lt is not None and ex.name == 'dfa2regexp' and lt.get('ok') == 'ERROR':
+        if lt is not None and getattr(ex, 'regexp_answer', False) and lt.get('ok') == 'ERROR':
             # the generated (ANTLR) regexp parser recovers from syntax errors ('garbage !!' is read as g.a.r.b.a.g.e); the Lean
             # parser is strict, so texts it rejects are outside the modelled domain of this one checker
-            ctx.count('dfa2regexp:text-outside-strict-syntax')
+            ctx.count(ex.name + ':text-outside-strict-syntax')
         elif lt is not None and verdict != 'RAISED' and (lt.get('ok') == 'OK') != (verdict == 'OK'):
             # the whole pipeline on text: library parsers + checker vs Gamba.Model.CheckText
             ctx.violation('correspondence:text:' + ex.name, {'case': c_min(c), 'answer': a, 'impl': verdict, 'model': lt},
@@ -206,7 +206,7 @@ def judge(ctx, c, answers):
             # check_dfa_accepts_rejects has no try/except and walks two SETS of words: whether it meets an offending word (prints it)
             # or a word it cannot run (raises) first depends on the iteration order; the model raises whenever some listed word cannot be run
             ctx.count(ex.name + ':raise-or-report-depends-on-set-order')
-        elif lx is not None and verdict != 'RAISED' and not (ex.name == 'dfa2regexp' and lt is not None and lt.get('ok') == 'ERROR'):
+        elif lx is not None and verdict != 'RAISED' and not (getattr(ex, 'regexp_answer', False) and lt is not None and lt.get('ok') == 'ERROR'):
             m = lx.get('ok', 'ERR') if isinstance(lx, dict) else 'ERR'
             use_len = getattr(ex, 'minimal_cex', True)
             mine = None if not rep else [len(rep[0][0]) if use_len else 0, rep[0][1]]
